@@ -181,6 +181,20 @@ def check_delay_classes(ctx):
             if inst != [cls]:
                 problems.append("delay type '%s' creates %s" % (t, inst))
     ctx.ob('R10.4-delay-class', 'dispatch', not problems, ctx.loc('types', f), 'delay type strings create the matching delay class', '; '.join(problems))
+    # ... and that object is what the reaction keeps: _add_reaction replaces it by NoDelay() only when none was given
+    g = ctx.fn('types:Model._add_reaction')
+    dname = 'delay_object'
+    problems = []
+    rebinds = [n for n in ast.walk(g) if isinstance(n, ast.Assign) and any(src(t) == dname for t in n.targets)]
+    for n in rebinds:
+        gd = sorted(x.replace(' ', '') for x in util.guards_of(n, g))
+        if src(n.value).replace(' ', '') != 'NoDelay()' or gd not in (['%s==None' % dname], ['None==%s' % dname], ['%sisNone' % dname]):
+            problems.append('the delay object is replaced by `%s` under %s' % (src(n.value), gd))
+    tup = [n for n in ast.walk(g) if isinstance(n, ast.Call) and src(n.func) == 'self.reaction_list.append']
+    if len(tup) != 1 or not isinstance(tup[0].args[0], ast.Tuple) or len(tup[0].args[0].elts) != 4 or src(tup[0].args[0].elts[1]) != dname:
+        problems.append('the reaction tuple does not carry the delay object')
+    ctx.ob('R10.4-delay-class', 'kept', not problems, ctx.loc('types', g),
+           'the delay object built for a reaction is the one stored with it (NoDelay only when no delay was given)', '; '.join(problems))
 
 
 def check_samplers(ctx):
